@@ -47,6 +47,10 @@ class Generic(object):
         f.__dict__["_sub"] = sub
         return _CallableOrObject(f, sub)
 
+    def __iter__(self):
+        # a returned collection (ticks, lines, spines ...): two recording members
+        return iter([Generic(self._calls, self._name + "[0]"), Generic(self._calls, self._name + "[1]")])
+
 
 class _CallableOrObject(object):
     def __init__(self, f, sub):
